@@ -121,8 +121,10 @@ def recipes(built):
   return out
 
 
-def compare(pm_a, ia, pm_b, ib):
-  """Differences between subgraph ia of pm_a and subgraph ib of pm_b."""
+def compare(pm_a, ia, pm_b, ib, n_orig=None):
+  """Differences between subgraph ia of pm_a and subgraph ib of pm_b.
+  Tensor names are compared for the first n_orig tensors only (those of the
+  float subgraph): how *inserted* tensors are named is not C19's subject."""
   A, B = pm_a.subs[ia], pm_b.subs[ib]
   d = []
   if len(A.ops) != len(B.ops):
@@ -138,7 +140,7 @@ def compare(pm_a, ia, pm_b, ib):
       d.append(f'op {k} wiring {x.inputs}->{x.outputs} vs '
                f'{y.inputs}->{y.outputs}')
   for k, (x, y) in enumerate(zip(A.tensors, B.tensors)):
-    if x.name != y.name:
+    if x.name != y.name and (n_orig is None or k < n_orig):
       d.append(f'tensor {k} name {x.name} vs {y.name}')
     if x.type != y.type or x.shape != y.shape:
       d.append(f'tensor {k} {x.name} {fbparse.TN[x.type]}{x.shape} vs '
@@ -180,6 +182,7 @@ def run_case(case, note, skip):
   res['states'] = 1
   res['transitions'] = sum(len(s['ops']) for s in case['subs']) + n
   only = case.get('only')
+  n_float = [len(sg.tensors) for sg in fbparse.parse(multi.model).subs]
   for rkey, recipe in recipes(multi):
     if only is not None and only != rkey:
       continue
@@ -223,7 +226,7 @@ def run_case(case, note, skip):
       continue
     for i in range(n):
       ps = fbparse.parse(qsingles[i])
-      diffs = compare(pm, i, ps, 0)
+      diffs = compare(pm, i, ps, 0, n_float[i])
       if diffs:
         res['fails'].append(_f(
             'subgraph_differs', f'{rkey}: subgraph {i} of the multi-subgraph '
